@@ -118,16 +118,27 @@ _c("C03",
    "model/implementation correspondence in vm_compute")
 _c("C05",
    "Coq theorems (Props/C05.v, closed under the global context): for every canonical valid instance of the proved fragment "
-   "(Number/Integer/Float/String/Boolean with any constraints, Enum by literals / by name / by value, Array/Deque of items, "
-   "Map with scalar keys, nested structures to any depth, with _ignore_none, _additional_properties, defaults, hooks) the model "
-   "serializer returns pure JSON (C05_pure) and the model deserializer returns exactly the instance (C05_roundtrip; induction on "
-   "fuel, field_ind' on declarations, Forall on values), falsy values included (C05_falsy); the full statement is refuted by the "
-   "required-field-holding-None witness. AnyOf/Set/Tuple/positional items/Anything/date fields are in the executable model and the "
-   "correspondence but not in the theorems. Model ser/deser are compared with Serializer/Deserializer inside Coq and the clauses "
-   "(json.dumps accepts, only JSON types, deserialize(serialize(x)) == x, lossy fixpoint) are evaluated on the implementation.",
-   "Trusted: Coq kernel + vm_compute; hand-written Ser/Serialize.v, Ser/Deserialize.v; date formats as measured oracle (RT); "
-   "harness/sergen.py generator and reifier; CPython json.",
-   "Coq proof (round-trip by mutual structural induction) + model/implementation correspondence in vm_compute")
+   "(Number/Integer/Float/String/Boolean with any constraints, Enum by literals / by name / by value -- members of falsy value "
+   "included --, Array/Deque/Set of the fragment, Tuple of plain scalars, Map with scalar keys, nested structures to any depth, "
+   "AnyOf/Optional over ARBITRARY options holding a value that distinguishes them, with _ignore_none, _additional_properties, "
+   "defaults, hooks) the model serializer returns pure JSON (C05_pure) and the model deserializer returns exactly the instance "
+   "(C05_roundtrip; induction on fuel, field_ind' on declarations, Forall on values), falsy values included (C05_falsy); "
+   "C05_anyof (every earlier option rejects the value and its document with ANY exception class => the option's own form is "
+   "emitted and read back), C05_enum_by_value (the value, never the name, also when falsy), C05_compact (compact wrapper form, "
+   "unless the field serializes to a JSON object); the full statement is refuted by the required-field-holding-None witness. "
+   "Source ties regenerated from /repo every run (Gen/SerSites.v): the except clauses of the option dispatch and of the item / "
+   "field loops, and Enum.serialize translated from its source, each with a bridging lemma (C05_src_*). ImmutableSet, positional "
+   "items, Anything are in the executable model and the correspondence but not in the theorems; DecimalNumber and the date/time "
+   "fields are outside the Coq model and are judged on the implementation only (lossy-fixpoint clause for Decimal, the format's own "
+   "round trip RT measured per value), at every position. Model ser/deser are compared with Serializer/Deserializer inside Coq on "
+   "random classes and on a deterministic lattice (leaf x position x falsy/member value x class shape), and the clauses (json.dumps "
+   "accepts, only JSON types, deserialize(serialize(x)) == x, lossy fixpoint) are evaluated on the implementation; the AnyOf "
+   "hypothesis 'distinguishable' is measured per value, not assumed.",
+   "Trusted: Coq kernel + vm_compute; hand-written Ser/Serialize.v, Ser/Deserialize.v; the translator/recognisers of "
+   "harness/genmods/ser_sites.py (fail closed); date formats as measured oracle (RT); the measured AnyOf hypothesis "
+   "(harness/c05ext.py: an option claims a document when it reads it into a value it accepts that serializes to the same JSON "
+   "kind; False and 0 are one kind); harness/sergen.py + harness/c05ext.py generators and reifier; CPython json.",
+   "Coq proof (round-trip by mutual structural induction) + generated source ties + model/implementation correspondence in vm_compute")
 _c("C06",
    "PARTIAL. Coq theorems (Props/C06.v, closed under the global context) over the executable model of the deserializer "
    "(Ser/Deserialize.v) and of the constructor: (a) the extra-key clause -- the exhaustive case analysis of "
